@@ -3,6 +3,7 @@ package main
 import (
 	"os"
 	"path/filepath"
+	"sync"
 
 	kv "github.com/XiXi-2024/xixi-kv"
 	"verifharness/h"
@@ -160,6 +161,34 @@ func backupTrace(en *Env, cfg h.Cfg, merges bool) int {
 				id2, _ := vs.New(h.BlockSize/2 + r.Intn(h.BlockSize))
 				e.Put(1+r.Intn(nkeys), id2)
 			}
+		}
+		e.Dump()
+	}
+	// several backups requested at the same instant (no writer is active): each copy must open to the model
+	if !e.Dead && e.DB != nil && !(cfg.IO == "mmap" && merges) {
+		const k = 3
+		dirs := make([]string, k)
+		names := make([]string, k)
+		var wg sync.WaitGroup
+		start := make(chan struct{})
+		for i := 0; i < k; i++ {
+			dirs[i] = en.FreshDir()
+			wg.Add(1)
+			go func(i int) {
+				defer wg.Done()
+				<-start
+				names[i] = h.Guard(h.CallTimeout, func() error { return e.DB.Backup(dirs[i]) })
+			}(i)
+		}
+		close(start)
+		wg.Wait()
+		for i := 0; i < k; i++ {
+			e.T.Emit(h.Ev{"ev": "op", "op": "Backup", "k": 0, "v": 0, "n": 0, "a": 1, "res": 0, "err": names[i]})
+			backups++
+		}
+		for i := 0; i < k; i++ {
+			h.WithoutCapture(func() { dumpCopy(e, dirs[i], cfg) })
+			en.Drop(dirs[i])
 		}
 		e.Dump()
 	}
